@@ -98,3 +98,33 @@ Qed.
 
 Theorem utf8_runes_latin1 : forall s, utf8_runes (l1 s) = map b2N s.
 Proof. intros s. unfold utf8_runes. apply utf8_runes_l1. apply l1_length_ge. Qed.
+
+(* latin-1 text is valid UTF-8 *)
+Lemma utf8_valid_fuel_S : forall f s, s <> [] ->
+  utf8_valid_fuel (S f) s =
+  if (fst (utf8_decode s) =? rune_error) && Nat.eqb (snd (utf8_decode s)) 1 then false
+  else utf8_valid_fuel f (skipn (snd (utf8_decode s)) s).
+Proof.
+  intros f s H. destruct s as [|h tl]; [contradiction|]. cbn [utf8_valid_fuel].
+  destruct (utf8_decode (h :: tl)). reflexivity.
+Qed.
+
+Lemma utf8_valid_fuel_nil : forall f, utf8_valid_fuel f [] = true.
+Proof. destruct f; reflexivity. Qed.
+
+Lemma utf8_valid_l1_fuel : forall s f, (length s <= f)%nat -> utf8_valid_fuel f (l1 s) = true.
+Proof.
+  induction s as [|b t IH]; intros f Hf.
+  - apply utf8_valid_fuel_nil.
+  - destruct f as [|f]; [cbn in Hf; lia|]. cbn [l1 flat_map].
+    destruct (l1_decode_head b (flat_map (fun b0 => utf8_encode (b2N b0)) t)) as [w [D W]].
+    rewrite utf8_valid_fuel_S.
+    2:{ intro E. apply app_eq_nil in E. destruct E as [E _]. exact (utf8_encode_nonempty _ E). }
+    rewrite D. cbn [fst snd].
+    assert (NE : (b2N b =? rune_error) = false).
+    { apply N.eqb_neq. pose proof (b2N_lt b). unfold rune_error. lia. }
+    rewrite NE. cbn [andb]. rewrite <- W, skipn_length_app. apply IH. cbn in Hf. lia.
+Qed.
+
+Theorem utf8_valid_latin1 : forall s, utf8_valid (l1 s) = true.
+Proof. intros s. unfold utf8_valid. apply utf8_valid_l1_fuel. apply l1_length_ge. Qed.
